@@ -105,4 +105,7 @@ static inline long SparseM_nonZeros(SparseM *m) { return m->nnz; }
 #define SpItC_value SpIt_value
 #define SparseRM_outerSize SparseM_outerSize
 #define SparseCM_outerSize SparseM_outerSize
+/* twins for the other spelling of an increment (`++it` for `it++` and vice versa): same effect.  X_inc yields the iterator after the step
+ * (exact); X_postinc made from X_inc is void, so a use of its value does not compile (UNDECIDED) instead of being modelled wrongly */
+#define SpIt_postinc(it_) ((void)SpIt_inc(it_))
 #endif
